@@ -230,7 +230,7 @@ class AbstractBlob:
         self.writers[(peer_address, peer_port)] = writer
 
         def remove_writer(finished: asyncio.Future):
-            if (peer_address, peer_port) in self.writers:
+            if self.writers.get((peer_address, peer_port)) is writer:  # the peer may have opened a new writer since
                 del self.writers[(peer_address, peer_port)]
             if self.length_claimed_by_peer and not self.writers and not self.verified.is_set() and not self.writing.is_set() \
                     and (finished.cancelled() or finished.exception() is not None):
